@@ -13,29 +13,33 @@ rng = ck.rng
 pr = ck.prove()
 
 # ------------------------------------------------------------------------------------------------ sequential generator
-# variable v is a CountingPtr<Obj> if v is even, a CountingPtr<const Obj> if v is odd (harness convention);
-# converting overloads go even -> odd only.  The generator tracks liveness and pointer values so that most ops are
-# valid and so that it can aim at aliasing (assign between aliases, move from an alias, unify on shared objects).
-def is_c(v): return v % 2 == 1
-
+# Every case names the kind of each handle variable: M = CountingPtr<Obj>, C = CountingPtr<const Obj> (both default
+# Deleter; the converting overloads go M -> C), N = CountingPtrNoDelete<Obj> (no-operation Deleter: counts like any
+# handle, never deletes).  Copy/move/assign/swap need the same kind (C++ typing); handles of different kinds meet on one
+# object through construction from get().  The generator tracks liveness and pointer values so that most ops are
+# valid and so that it can aim at aliasing (assign between aliases, move from an alias, unify on shared objects,
+# default and no-delete handles on the same object).
 class Sim:
-    def __init__(self, nv):
-        self.nv = nv; self.v = [None] * nv      # None dead, 0 null, k>0 object id+1
+    def __init__(self, kinds):
+        self.K = kinds; self.nv = len(kinds); self.v = [None] * self.nv      # None dead, 0 null, k>0 object id+1
         self.nobj = 0
     def cnt(self, p): return sum(1 for x in self.v if x == p)
     def live(self): return [i for i in range(self.nv) if self.v[i] is not None]
     def dead(self): return [i for i in range(self.nv) if self.v[i] is None]
     def fresh(self): self.nobj += 1; return self.nobj
 
-def typed_pair(kind, v, w):
+def typed_pair(K, kind, v, w):
     """op token for a two-variable operation v <- w, or None if the C++ would not compile"""
-    if is_c(v) == is_c(w): return kind
-    if is_c(v) and not is_c(w): return "X" + kind
+    if K[v] == K[w]: return kind
+    if K[v] == "C" and K[w] == "M": return "X" + kind
     return None
 
+def fr_ok(K, v, w): return K[w] != "C" or K[v] == "C"
+
 def gen_seq(rng, nops, mode):
-    nv = [4, 4, 4, 4, 3, 2, 6, 8][rng.below(8)]
-    S = Sim(nv); ops = []
+    K = ["MCNM", "MCNM", "MNMN", "MCMC", "MNN", "MN", "MCNMNC", "MCNMNCMN"][rng.below(8)]
+    nv = len(K)
+    S = Sim(K); ops = []
     guard = 0
     while len(ops) < nops and guard < 20 * nops:
         guard += 1
@@ -50,15 +54,16 @@ def gen_seq(rng, nops, mode):
                 if v >= nv or S.v[v] is not None: ops.append("N,%d,3" % v)
             elif k == "DF":
                 if v >= nv or S.v[v] is not None: ops.append("DF,%d" % v)
-            elif v < nv and (S.v[v] is None or S.v[w] is None) and k in ("CA", "MA", "SW") and is_c(v) == is_c(w):
+            elif v < nv and (S.v[v] is None or S.v[w] is None) and k in ("CA", "MA", "SW") and K[v] == K[w]:
                 ops.append("%s,%d,%d" % (k, v, w))
-            elif v < nv and k in ("CC", "MC") and is_c(v) == is_c(w) and (S.v[v] is not None or S.v[w] is None):
+            elif v < nv and k in ("CC", "MC") and K[v] == K[w] and (S.v[v] is not None or S.v[w] is None):
                 ops.append("%s,%d,%d" % (k, v, w))
             continue
-        # weights by mode: 0 mixed, 1 alias-heavy, 2 unify-heavy, 3 lifecycle churn
+        # weights by mode: 0 mixed, 1 alias-heavy, 2 unify-heavy, 3 lifecycle churn, 4 raw-pointer sharing across deleter kinds
         if mode == 1: W = dict(N=6, DF=2, NP=1, FR=8, CC=14, MC=4, CA=18, MA=14, AN=3, R=4, SW=6, U=4, X=8)
         elif mode == 2: W = dict(N=8, DF=1, NP=1, FR=6, CC=14, MC=3, CA=10, MA=6, AN=4, R=3, SW=3, U=22, X=8)
         elif mode == 3: W = dict(N=14, DF=5, NP=4, FR=6, CC=10, MC=10, CA=6, MA=6, AN=6, R=6, SW=3, U=4, X=18)
+        elif mode == 4: W = dict(N=8, DF=2, NP=1, FR=26, CC=8, MC=4, CA=8, MA=6, AN=3, R=12, SW=3, U=5, X=14)
         else: W = dict(N=10, DF=3, NP=2, FR=6, CC=10, MC=7, CA=12, MA=12, AN=5, R=6, SW=6, U=8, X=10)
         tot = sum(W.values()); pick = rng.below(tot); k = None
         for name in sorted(W):
@@ -73,10 +78,12 @@ def gen_seq(rng, nops, mode):
             if not dead or not live: continue
             v = rng.choice(dead); w = rng.choice(live)
             if k == "FR":
-                if not (is_c(v) == is_c(w) or is_c(v)): continue
+                other = [u for u in live if K[u] != K[v] and fr_ok(K, v, u) and S.v[u] != 0]
+                if other and rng.below(100) < 60: w = rng.choice(other)      # a handle of another kind on the same object
+                if not fr_ok(K, v, w): continue
                 ops.append("FR,%d,%d" % (v, w)); S.v[v] = S.v[w]
             else:
-                t = typed_pair(k, v, w)
+                t = typed_pair(K, k, v, w)
                 if t is None: continue
                 ops.append("%s,%d,%d" % (t, v, w)); S.v[v] = S.v[w]
                 if k == "MC": S.v[w] = 0
@@ -89,10 +96,10 @@ def gen_seq(rng, nops, mode):
             elif a < 45 and aliases: w = rng.choice(aliases)         # same object through another variable
             else: w = rng.choice(live)
             if k == "SW":
-                if is_c(v) != is_c(w): continue
+                if K[v] != K[w]: continue
                 ops.append("SW,%d,%d" % (v, w)); S.v[v], S.v[w] = S.v[w], S.v[v]
             else:
-                t = typed_pair(k, v, w)
+                t = typed_pair(K, k, v, w)
                 if t is None: continue
                 ops.append("%s,%d,%d" % (t, v, w))
                 if S.v[v] != S.v[w]:
@@ -111,36 +118,43 @@ def gen_seq(rng, nops, mode):
                 if S.v[v] != 0 and S.cnt(S.v[v]) > 1: S.v[v] = S.fresh()
             elif k == "R": ops.append("R,%d" % v); S.v[v] = 0
             else: ops.append("X,%d" % v); S.v[v] = None
-    return "seq %d %s" % (nv, " ".join(ops))
+    return "seq %s %s" % (K, " ".join(ops))
 
-def alphabet3():
-    """every well-typed operation token over variables 0,1,2 (0,2: CountingPtr<Obj>; 1: CountingPtr<const Obj>)"""
-    A = []
-    for v in range(3):
+def alphabet(K):
+    """every well-typed operation token over the variables of kinds K"""
+    A = []; n = len(K)
+    for v in range(n):
         A += ["N,%d,7" % v, "DF,%d" % v, "AN,%d,8" % v, "R,%d" % v, "U,%d" % v, "X,%d" % v]
-        for w in range(3):
-            if is_c(v) == is_c(w) or is_c(v): A.append("FR,%d,%d" % (v, w))
+        for w in range(n):
+            if fr_ok(K, v, w): A.append("FR,%d,%d" % (v, w))
             for k in ("CC", "MC", "CA", "MA"):
-                t = typed_pair(k, v, w)
+                t = typed_pair(K, k, v, w)
                 if t: A.append("%s,%d,%d" % (t, v, w))
-            if is_c(v) == is_c(w): A.append("SW,%d,%d" % (v, w))
+            if K[v] == K[w]: A.append("SW,%d,%d" % (v, w))
     return A
 
-PREFIXES = [
-    "N,0,1 CC,2,0 XCC,1,0",          # three aliases of one object
-    "N,0,1 CC,2,0 DF,1",             # two aliases and a null
-    "N,0,1 N,2,2 XCC,1,0",           # two objects, one shared with the const handle
-    "N,0,1 DF,2",                    # unique + null, one dead
-    "N,0,1 N,1,2 N,2,3",             # three unique
+FAMILIES = [
+    ("MCM", ["N,0,1 CC,2,0 XCC,1,0",          # three aliases of one object
+             "N,0,1 CC,2,0 DF,1",             # two aliases and a null
+             "N,0,1 N,2,2 XCC,1,0",           # two objects, one shared with the const handle
+             "N,0,1 DF,2",                    # unique + null, one dead
+             "N,0,1 N,1,2 N,2,3"]),           # three unique
+    ("MNN", ["N,0,1 FR,1,0",                  # a default and a no-delete handle on the same object
+             "N,0,1 FR,1,0 CC,2,1",           # one default, two no-delete
+             "N,1,1 CC,2,1",                  # no-delete handles only
+             "N,1,1 FR,0,1"]),                # object created under a no-delete handle, default handle from the raw pointer
+    ("MCN", ["N,0,1 XCC,1,0 FR,2,0"]),        # all three kinds on one object
 ]
 
 def gen_exhaustive(depth):
-    A = alphabet3(); out = []
-    def rec(prefix, d):
-        out.append("seq 3 " + prefix)
-        if d == 0: return
-        for a in A: rec(prefix + " " + a, d - 1)
-    for p in PREFIXES: rec(p, depth)
+    out = []
+    for K, prefixes in FAMILIES:
+        A = alphabet(K)
+        def rec(prefix, d):
+            out.append("seq %s %s" % (K, prefix))
+            if d == 0: return
+            for a in A: rec(prefix + " " + a, d - 1)
+        for p in prefixes: rec(p, depth if K != "MCN" or depth < 3 else 2)
     return out
 
 # ------------------------------------------------------------------------------------------------ concurrent generator
@@ -212,7 +226,7 @@ else:
     nexh = len(ex); seq_cases += ex
     N = 60000 if ck.thorough() else 5000
     for k in range(N):
-        seq_cases.append(gen_seq(rng, 8 + rng.below(50), k % 4))
+        seq_cases.append(gen_seq(rng, 8 + rng.below(50), k % 5))
     cc_cases += conc_cases(rng, ck.thorough())
 casefile = os.path.join(ck.scratch, "seq_cases.txt")
 open(casefile, "w").write("\n".join(seq_cases) + ("\n" if seq_cases else ""))
@@ -220,6 +234,7 @@ open(casefile, "w").write("\n".join(seq_cases) + ("\n" if seq_cases else ""))
 found = False
 stats = {"seq_corpus": ncorpus, "seq_bounded_exhaustive": nexh, "seq_random": len(seq_cases) - ncorpus - nexh}
 opstats = {}
+kstats = {}
 distinct = set()
 samples = []
 
@@ -264,7 +279,8 @@ elif seq_cases:
             for tk in c.split()[2:]:
                 k = tk.split(",")[0]; opstats[k] = opstats.get(k, 0) + 1
             # non-trivial: some observed state has a shared object (unique()==false on a non-null handle) and some object has been destroyed before the end
-            if re.search(r":\d+:0:", b) and re.search(r";[0-9.]*1[0-9.]* ", b): distinct.add(c)
+            if re.search(r":\d+:0:", b) and re.search(r";[0-9.]*1[0-9.]*[; ]", b): distinct.add(c)
+            kstats[c.split()[1]] = kstats.get(c.split()[1], 0) + 1
             if not a.endswith("P=ok"):
                 found = True
                 ck.violation("CountingPtr violates the property on this history: " + a[a.rfind("P="):][:150],
@@ -377,7 +393,7 @@ ck.finish({
             "non-trivial = a thread is preempted between two of its shared actions; distinct = distinct event trace. "
             "(3) real-thread stress with real std::atomic (2 and 3 threads; per round 1e5 mixed handle operations per thread on one shared object, then a release race: every thread lets go of each of 20000 objects at the same moment behind a per-object spin barrier, with a Deleter that counts its calls - every object must see exactly one; TSan build in the thorough tier): counted only in input_distribution.",
     "samples": samples,
-    "input_distribution": dict(stats, seq_ops=opstats, **conc_stats, stress_rounds_ok=stress_stats),
+    "input_distribution": dict(stats, seq_ops=opstats, seq_variable_kinds=kstats, **conc_stats, stress_rounds_ok=stress_stats),
     "traces_validated_against_impl": conc_stats["interleavings"],
 }, assumptions=[
     "extraction: ExtrOcamlBasic only; nat/list stay Coq inductives",
